@@ -111,6 +111,83 @@ def rule_spawn_registered(ctx: Ctx, out: Collector) -> None:
     if n == 0:
         raise AnalysisError('no task-creating primitive found (LK-1 positive fixture vanished)')
     out.count('spawn_primitives', n)
+    _rule_registry_strong(ctx, out, reg)
+
+
+STRONG_CONTAINERS = {'builtins.set', 'builtins.list', 'builtins.dict', 'collections.deque', 'collections.OrderedDict',
+                     'collections.defaultdict'}
+
+
+def _rule_registry_strong(ctx: Ctx, out: Collector, reg) -> None:
+    """LK-7: the registry is what keeps a helper task (and the exception it ended with) alive until run() has scanned
+    it: asyncio itself holds tasks weakly, so the registry must be a strong container."""
+    mgr = ctx.manager_class()
+    if not (isinstance(reg, tuple) and reg[0] == 'attr'):
+        raise AnalysisError(f'task registry {sym.show(reg)} is not a field of the run manager (LK-7 anchor vanished)')
+    fld = reg[2]
+    cons = f'{mgr.module.name}::{mgr.name}.{fld}::the task registry holds strong references'
+    makers: List[Tuple[str, ast.AST, object]] = []          # (description, expression, FuncEnv / None)
+    f = ctx.p.lookup_field(mgr, fld)
+    from ..program import ModuleEnv
+    menv = ModuleEnv(ctx.p, mgr.module)
+    if f is not None and f[2] is not None:
+        default = f[2]
+        if isinstance(default, ast.Call) and (dotted(default.func) or '').split('.')[-1] == 'field':
+            for k in default.keywords:
+                if k.arg == 'default_factory':
+                    makers.append(('default_factory', k.value, menv))
+                if k.arg == 'default':
+                    makers.append(('default', k.value, menv))
+        else:
+            makers.append(('default', default, menv))
+    for m in mgr.methods.values():
+        env = FuncEnv.of(ctx.p, m)
+        for node in env.own_nodes():
+            if isinstance(node, (ast.Assign, ast.AnnAssign)):
+                tgts = node.targets if isinstance(node, ast.Assign) else [node.target]
+                for t in tgts:
+                    if isinstance(t, ast.Attribute) and t.attr == fld and isinstance(t.value, ast.Name) and t.value.id == 'self' \
+                            and node.value is not None:
+                        makers.append((f'{m.name}', node.value, env))
+    if not makers:
+        raise AnalysisError(f'no initialisation of {fld} found (LK-7 anchor vanished)')
+    problems = []
+    kinds = []
+    for how, expr, env in makers:
+        fn = expr.func if isinstance(expr, ast.Call) and how != 'default_factory' else expr
+        name = None
+        if isinstance(expr, (ast.Set, ast.List, ast.Dict, ast.SetComp, ast.ListComp, ast.DictComp)) and how != 'default_factory':
+            name = 'builtins.' + type(expr).__name__.replace('Comp', '').lower()
+        else:
+            t = env.type_of(fn)
+            if t[0] == 'extsym':
+                name = t[1]
+            elif t[0] == 'type' and t[1][0] == 'ext':
+                name = t[1][1]
+            elif t[0] == 'type' and t[1][0] == 'class':
+                name = t[1][1].qualname
+            else:
+                d = dotted(fn) or unparse(fn)
+                res = ctx.p.resolve_global(mgr.module, d.split('.')[0]) if d else ('unknown',)
+                name = {'set': 'builtins.set', 'list': 'builtins.list', 'dict': 'builtins.dict'}.get(d, None)
+                if name is None and res[0] == 'module':
+                    name = f'{res[1]}.{".".join(d.split(".")[1:])}'
+                if name is None and res[0] == 'ext':
+                    name = res[1]
+        kinds.append(f'{how}: {name}')
+        if name is None:
+            raise AnalysisError(f'cannot classify the container {unparse(expr)} of the task registry (LK-7)')
+        if name.startswith('weakref.') or 'Weak' in name.split('.')[-1]:
+            problems.append(f'{how} creates {name}')
+        elif name not in STRONG_CONTAINERS:
+            raise AnalysisError(f'unknown container {name} for the task registry (LK-7): neither a builtin strong container nor a weak one')
+    if not problems:
+        out.ok('LK-7', cons, ctx.p.loc(mgr.module, mgr.node), '; '.join(kinds))
+    else:
+        out.bad('LK-7', cons, ctx.p.loc(mgr.module, mgr.node),
+                f'the registry of run tasks holds them weakly ({"; ".join(problems)}): a helper task referenced by nothing else is '
+                f'collected as soon as it ends, so its exception is never seen by the error scan of run() (the failure is lost and '
+                f'run() waits forever) and a pending one is destroyed instead of cancelled')
 
 
 def rule_run_cleanup(ctx: Ctx, out: Collector) -> None:
